@@ -208,18 +208,19 @@ def gen_case(rng):
                 else:
                     recs.append((c, pos[i], "|".join(str(x) for x in al), b))
             files[f] += recs
-    return {"ploidy": P, "files": files, "chroms": chroms, "only_snvs": only_snvs, "alts": {"%s:%d" % k: v for k, v in alts.items()}}
+    return {"ploidy": P, "files": files, "chroms": chroms, "only_snvs": only_snvs, "bystander": rng.random() < 0.15, "alts": {"%s:%d" % k: v for k, v in alts.items()}}
 
 
-def write_file(records, path, sample="sampleX", alts=None):
+def write_file(records, path, sample="sampleX", alts=None, bystander=None):
+    """bystander: name of a second sample in the file that is not compared and carries haploid calls (a male sample on chrX)."""
     d = gvcf.Doc()
-    d.samples = [sample]
+    d.samples = [sample] + ([bystander] if bystander else [])
     d.meta = ["##fileformat=VCFv4.2", "##contig=<ID=chr1,length=100000>", "##contig=<ID=chr2,length=100000>",
               '##FORMAT=<ID=GT,Number=1,Type=String,Description="Genotype">',
               '##FORMAT=<ID=PS,Number=1,Type=Integer,Description="Phase set">']
     for c, pos, gt, ps in records:
         d.records.append({"chrom": c, "pos": pos, "id": ".", "ref": "A", "alts": (alts or {}).get("%s:%d" % (c, pos), ["C"]), "qual": ".", "filter": ".", "info": ".",
-                          "fmt": ["GT", "PS"], "calls": [{"GT": gt, "PS": str(ps) if ps is not None else "."}]})
+                          "fmt": ["GT", "PS"], "calls": [{"GT": gt, "PS": str(ps) if ps is not None else "."}] + ([{"GT": str(pos % 2), "PS": "."}] if bystander else [])})
     d.write(path)
 
 
@@ -377,11 +378,13 @@ def o_multiway(case):
 # ------------------------------------------------------------------ running
 
 
-def run_compare_files(paths, P, tmp, tagname, only_snvs, want_aux=True):
+def run_compare_files(paths, P, tmp, tagname, only_snvs, want_aux=True, sample=None):
     from whatshap.cli.compare import run_compare
 
     outs = {"pair": os.path.join(tmp, tagname + ".pair.tsv")}
     kw = dict(vcf=paths, ploidy=P, tsv_pairwise=outs["pair"], only_snvs=only_snvs)
+    if sample:
+        kw["sample"] = sample
     if P == 2 and want_aux:
         outs["bed"] = kw["switch_error_bed"] = os.path.join(tmp, tagname + ".bed")
         if len(paths) == 2:
@@ -406,12 +409,17 @@ def check_case(case, tmp, counters, rng):
     P = case["ploidy"]
     viol = []
     paths = []
+    # in some runs the files carry a second sample that is not compared and has haploid calls; the compared sample is named then
+    bystander = "male_bystander" if (P == 2 and case.get("bystander")) else None
+    sample_arg = "sampleX" if bystander else None
     for k, recs in enumerate(case["files"]):
         p = os.path.join(tmp, "f%d.vcf" % k)
-        write_file(recs, p, alts=case.get("alts"))
+        write_file(recs, p, alts=case.get("alts"), bystander=bystander if k != 1 else None)
         paths.append(p)
+    if bystander:
+        counters["runs_with_haploid_bystander_sample"] = counters.get("runs_with_haploid_bystander_sample", 0) + 1
     try:
-        rows, outs = run_compare_files(paths, P, tmp, "orig", case["only_snvs"])
+        rows, outs = run_compare_files(paths, P, tmp, "orig", case["only_snvs"], sample=sample_arg)
     except Exception:
         tb = traceback.format_exc()
         if "CommandLineError" in tb and "No chromosome" in tb:
